@@ -59,6 +59,7 @@ func (d *vxDst) Close() error { d.closed = true; return nil }
 func VxC41() {
 	W := vxParam("W")
 	R := vxParam("R")
+	vxSchedReset() // native: follow the schedule of the counter-example being replayed, if any
 	src := &vxSrc{data: []byte{'x', 'y'}, closed: make(chan struct{})}
 	dst := &vxDst{}
 	c := NewConn("fake", src, dst)
